@@ -203,6 +203,10 @@ class C05(DimwiseCheck):
         cfg["nnoise"] = r.choice([1, 2, 3])
         cfg["max_points"] = 10 ** 6
         ops = gen_limit_ops(stream(rk, "ops"), tier)
+        if strategy == "dimension_wise" and cfg.get("long_narrow"):
+            for op in ops:      # one or two intervals per step: point limits in the hundreds mean hundreds of steps (each re-evaluated when recalc is on)
+                op[1]["max_evaluations"] = min(op[1]["max_evaluations"], 200)
+            ops = [op for i, op in enumerate(ops) if i == 0 or op[1]["max_evaluations"] > ops[i - 1][1]["max_evaluations"]]
         if strategy == "dimension_wise" and cfg["grid"] != "GlobalTrapezoidalGrid":
             for op in ops:      # hierarchical / high-order global rules are slow: keep their histories short
                 op[1]["max_evaluations"] = min(op[1]["max_evaluations"], 60)
